@@ -55,6 +55,7 @@ type C20Case struct {
 
 func genC20(r *Rng) *C20Case {
 	cs := &C20Case{Cfg: genCfg(r, 0.15)}
+	cs.Cfg.apply() // Source() during generation must already use this case's delimiters
 	cs.Env = GenEnv(r.Fork(1), 0, 5)
 	g := NewGen(r.Fork(2), r.Range(4, 40))
 	if r.Chance(0.3) {
